@@ -287,3 +287,41 @@ func TestLongStringsInScalarSlots(t *testing.T) {
 		}
 	})
 }
+
+// TestNestedEdgeSizes is the deterministic companion of the "huge_size_nested" mutation: an element header that
+// declares a size at the edges of its length-of-length range (2^(8n) - k for k = 0..20, half range, and a little
+// more than what is there), for every n = 1..8, as string and as list, placed inside a well-formed list after 0..3
+// one-byte siblings (so that "position + size" arithmetic starts from different positions), optionally wrapped in a
+// further list. Every such input goes through checkBytes (no panic, no hostile allocation, accepted only if it
+// re-encodes to itself).
+func TestNestedEdgeSizes(t *testing.T) {
+	n := 0
+	for ll := 1; ll <= 8; ll++ {
+		full := ^uint64(0) >> uint(64-8*ll)
+		var sizes []uint64
+		for k := uint64(0); k <= 20 && k <= full; k++ {
+			sizes = append(sizes, full-k)
+		}
+		sizes = append(sizes, full/2, full/2+1, full/2+2, 56, 57, 60)
+		for _, v := range sizes {
+			for _, base := range []byte{0xb7, 0xf7} {
+				h := []byte{base + byte(ll)}
+				for i := ll - 1; i >= 0; i-- {
+					h = append(h, byte(v>>(8*uint(i))))
+				}
+				for nSib := 0; nSib <= 3; nSib++ {
+					for _, tail := range [][]byte{nil, {0x80}, {0x01, 0x02}} {
+						body := append(bytes.Repeat([]byte{0x05}, nSib), h...)
+						body = append(body, tail...)
+						out := append([]byte{0xc0 + byte(len(body))}, body...)
+						checkBytes(t, out, "huge_size_nested_edge")
+						wrapped := append([]byte{0xc0 + byte(len(out))}, out...)
+						checkBytes(t, wrapped, "huge_size_nested_edge")
+						n += 2
+					}
+				}
+			}
+		}
+	}
+	stats.Count("nested_edge_size_inputs", int64(n))
+}
